@@ -22,10 +22,13 @@ HOSTS3 = [   # multi-line containers whose elements sit on their own lines at va
     'x = [\n    p,\n    q,\n]\n', 'f(\n    p,\n    q,\n)\n', 'x = {\n        p: 1,\n        q: 2,\n}\n', 'class C(\n  p,\n  q,\n): pass\n', 'x = (\n\tp,\n\tq,\n)\n',
     'def f(\n        p,\n        q=1,\n): pass\n', 'with (\n    p as a,\n    q as b,\n): pass\n', 'from m import (\n    p,\n    q,\n)\n', 'match v:\n    case [\n        p,\n        q,\n    ]: pass\n',
     'if 1:\n    x = [\n        p,\n        q,\n    ]\n', 'x = {\n  p,\n  q,\n}\ndel (\n      p,\n      q,\n)\n',
+    # unparenthesized sequences spread over continuation lines, multi-byte text before the element ends
+    'x = é, b, \\\n c\nfor ü, v, \\\n w in z: pass\n', 'del é, ü, \\\n  ñ\nreturn_ = "日本", é, \\\n    ü\n', 'é = ü, \\\n ñ = "ä", \\\n  ö\nassert é, \\\n "ü"\n',
 ]
 CODES3 = ['[\n        a,\n        (b,\n  c),\n]', '(a,\n            b,\n c)', 'f(\n            x,\n  y)', '[\n\ta,\n\t\t(b,\n c)]', 'a, (b,\n  c), d', '{\n      k: v,\n   **w,\n          j: u}',
           '[\n        é,\n        ("日本",\n  ü),\n]', 'g(a)(\n        b)(\n  c)']
 OPS3 = ['replace', 'put', 'put_slice', 'put_slice_one', 'setslice', 'insert', 'append', 'extend', 'prepend', 'prextend', 'view_insert', 'view_append']
+DEL3 = ['remove', 'delitem', 'put_none', 'put_slice_none', 'view_remove', 'cut', 'get_slice_cut']
 
 
 def run_table3(ctx, FST):
@@ -40,8 +43,8 @@ def run_table3(ctx, FST):
         except Exception:
             continue
         for ci in range(n):
-            for op in OPS3:
-                for code in CODES3 + ([c + '#slice' for c in CODES3 if c[0] in '[(' or ',' in c] if op in ('put_slice', 'setslice', 'extend', 'prextend') else []):
+            for op in OPS3 + DEL3:
+                for code in (['zz'] if op in DEL3 else []) or CODES3 + ([c + '#slice' for c in CODES3 if c[0] in '[(' or ',' in c] if op in ('put_slice', 'setslice', 'extend', 'prextend') else []):
                     as_slice = code.endswith('#slice')
                     code = code[:-6] if as_slice else code
                     for form in ('src', 'ast', 'fst'):
